@@ -314,6 +314,22 @@ pub fn profile_for(id: &str, rng: &mut Rng) -> Profile {
         }
         _ => {}
     }
+    // eviction pressure in the history simulator: a tenth of the histories of the transactional
+    // properties run uniform ~0.5 KiB rows past a cache of 24-32 pages, so that pages - also those of
+    // open and later rolled-back transactions - are written back and read again in the middle of
+    // everything (the probe `cache_evictions` read zero for all of them: every cache was larger than the data)
+    if matches!(id, "C03" | "C04" | "C07" | "C09" | "C13" | "C15" | "C20") && p.pad_text == 0 && p.txn_burst == 0 && rng.chance(10) {
+        p.text_cols = true;
+        p.pad_text = 450;
+        p.small_cache = true;
+        p.updates = false; // cells of this size must stay uniform (open findings D31e / D31b)
+        p.max_tables = p.max_tables.min(2);
+        p.max_inserts_per_table = 400;
+        p.min_events = 80;
+        p.max_events = rng.range(90, 150) as u32;
+        p.w_auto = p.w_auto.max(40);
+        p.w_reopen = 0;
+    }
     // long lives (since the repair of D9 / D15b a table is no longer limited to 32 inserts): an eighth
     // of the histories keeps one or two tables for a few hundred statements, so that trees and
     // catalog rows live through many more transactions than the short histories give them
